@@ -16,3 +16,16 @@ for cap, tier in ((1, 'quick'), (2, 'quick'), (3, 'quick'), (4, 'quick'), (5, 't
             job(id='C19.pool.cap%d%s.%s' % (cap, '.int' if pl else '', entry[6:]), tu='tier_a/tasklist.cpp', defs=defs, entry=entry,
                 props=props, tier=t, unwind=max(cap + 2, 6), unwindset={'verif_havoc.0': 4096}, objbits=10, carriers=TL_CARRIERS,
                 case_key='TaskListT<%s,%d>' % ('int' if pl else 'void', cap))
+
+# ------------------------------------------------------------------ C19 arrays
+DA_CARRIERS = [r'DynamicArrayT<.*>::emplace', r'DynamicArrayT<.*>::operator\+=', r'DynamicArrayT<.*>::operator\[\]', r'StaticArrayT<.*>::fill', r'StaticArrayT<.*>::empty', r'StaticArrayT<.*>::operator!=']
+for cap, cap2, tier in ((1, 1, 'quick'), (2, 3, 'quick'), (4, 3, 'quick'), (5, 5, 'thorough'), (8, 4, 'thorough')):
+    for pl in (False, True):
+        defs = {'CAP': cap, 'CAP2': cap2}
+        if pl: defs['PAYLOAD_INT'] = None
+        t = tier if not (pl and cap == 1) else 'thorough'
+        for entry in ('proof_da_init', 'proof_da_emplace_copy', 'proof_da_emplace_args', 'proof_da_bulk', 'proof_da_copy_clear', 'proof_da_iter', 'proof_sa'):
+            if entry == 'proof_sa' and pl: continue
+            job(id='C19.array.cap%d_%d%s.%s' % (cap, cap2, '.int' if pl else '', entry[6:]), tu='tier_a/arrays.cpp', defs=defs, entry=entry,
+                props=['C19', 'C11'], tier=t, unwind=max(cap, cap2, 4) + 2, objbits=10, carriers=DA_CARRIERS,
+                case_key='DynamicArrayT<TransitionT<%s>,%d>+=<%d>' % ('int' if pl else 'void', cap, cap2))
